@@ -53,6 +53,34 @@ def adversarial(w, J, prefix='k'):
     return out[:-1]
 
 
+class DuckMapping(object):
+    """Mapping by protocol only (keys/items/__getitem__/__iter__/__len__), not registered as a Mapping."""
+
+    def __init__(self, d):
+        self._d = dict(d)
+
+    def keys(self):
+        return self._d.keys()
+
+    def items(self):
+        return self._d.items()
+
+    def values(self):
+        return self._d.values()
+
+    def __getitem__(self, k):
+        return self._d[k]
+
+    def __iter__(self):
+        return iter(self._d)
+
+    def __len__(self):
+        return len(self._d)
+
+    def __contains__(self, k):
+        return k in self._d
+
+
 def dec_thr(t):
     """Thresholds are floats, or exact rationals written ['frac', p, q] / decimals written ['dec', text]."""
     if isinstance(t, list) and t[0] == 'frac':
@@ -266,7 +294,11 @@ def check(c, st):
                 m = {}
                 for k, n in f[1]:
                     m[k] = n            # (a later entry for the same key wins, as in any mapping)
-                tc.update(m)
+                # a mapping of key to count is whatever offers the mapping protocol: a dict, a Counter, or an object
+                # that is not a collections.abc.Mapping at all (proxies, read-only wrappers)
+                style = len(f[1]) % 3
+                tc.update(m if style == 0 else collections.Counter(m) if style == 1 and all(v > 0 for v in m.values())
+                          else DuckMapping(m))
                 for k, n in m.items():
                     n = max(n, 0)       # zero / negative counts add nothing
                     exact[k] += n
